@@ -17,6 +17,7 @@ CFG = {
         "Swat4.C17.add_body_quad",
         "Swat4.C17.add_body_table",
         "Swat4.C17.view_string_table",
+        "Swat4.C17.toHTML_inert",
         "Swat4.C17.facts_ok",
     ],
     "shards": (1, 4),
